@@ -241,6 +241,35 @@ def run_case(case, ctx):
         ok, d_again = ctx.call("C12/Workspace.data", ws.data, model)
         if ok and list(d_again) != list(d):
             ctx.fail("C12/Workspace.data_not_repeatable")
+        # (h) overrides appear verbatim in the constraint terms: evaluate them off nominal against the reference
+        if ref.constrained():
+            from vlib.refmodel import aux_to_flat, pars_to_flat
+
+            tl = pyhf.tensorlib
+            rp = ref.inits()
+            for k_, p in enumerate(ref.constrained()):
+                lo = [b[0] for b in p.bounds]
+                hi = [b[1] for b in p.bounds]
+                rp[p.name] = [min(max(v * (1.0 + 0.03 * ((k_ + j) % 3 + 1)) + 0.01, lo[j]), hi[j])
+                              for j, v in enumerate(rp[p.name])]
+            raux = {p.name: [a * 1.07 + 0.05 if p.constraint == "normal" else a * 1.07 + 1.0 for a in p.auxdata]
+                    for p in ref.constrained()}
+            fp, fa = pars_to_flat(cfg, rp), aux_to_flat(cfg, ref, raux)
+            okc, conl = ctx.call("C12/constraint_logpdf", model.constraint_logpdf, tl.astensor(fa), tl.astensor(fp))
+            oke, eaux = ctx.call("C12/expected_auxdata", model.expected_auxdata, tl.astensor(fp))
+            if okc and oke:
+                terms = ref.constraint_terms(rp, raux)
+                want = math.fsum(t[2] for t in terms)
+                scale = math.fsum(abs(t[2]) for t in terms if math.isfinite(t[2]))
+                over_c = sorted({o for p in ref.constrained() for o in p.overridden if o in ("auxdata", "sigmas", "factors")})
+                tag = "+".join(over_c) if over_c else "default"
+                if math.isfinite(want):
+                    ctx.close("constraint", float(backends.tonp(conl).reshape(-1)[0]), want, 1e-10 * (1 + scale),
+                              f"C12/constraint_term_value/{tag}")
+                ea = ref.expected_aux(rp)
+                wea = [v for n in cfg.auxdata_order for v in ea[n]]
+                if not _close_list(backends.tonp(eaux).reshape(-1), wea):
+                    ctx.fail(f"C12/expected_auxdata_value/{tag}", got=[float(v) for v in backends.tonp(eaux).reshape(-1)], want=wea)
         # (g) build round trip
         mixed_fixed = any(len(set(p.fixed)) > 1 for p in ref.params.values())
         sig = "C12/Workspace.build" + ("/mixed_fixed_flags" if mixed_fixed else "") + (
